@@ -38,6 +38,8 @@ type ctor struct {
 	hasErr       bool
 	void         bool
 	resultObj    bool
+	markerLast   bool   // the godi.In / godi.Out marker is the LAST field of the parameter / result object
+	closure      string // non-empty: the constructor is a closure made by the factory of that name (shared code pointer)
 }
 
 var (
@@ -356,6 +358,22 @@ func main() {
 	// built-in injectables in fields tagged optional:"true": still the scope's own context / scope / provider
 	sp(&ctor{name: "BIopt_S6", inStyle: true, deps: []dep{{target: "Context", form: "FContext", optional: true}, {target: "Scope", form: "FScope", optional: true}, {target: "Provider", form: "FProvider", optional: true}}, outs: simpleOut("S6")})
 	sp(&ctor{name: "BIopt_K3", inStyle: true, deps: []dep{{target: "Scope", form: "FScope", optional: true}, mkDep("K0", "FOpt"), {target: "Context", form: "FContext"}}, outs: simpleOut("K3"), hasErr: true})
+	// parameter / result objects whose godi.In / godi.Out marker is not the first field
+	sp(&ctor{name: "InLast_K0", inStyle: true, markerLast: true, deps: []dep{mkDep("K1", "FPlain"), mkDep("K2", "FOpt")}, outs: simpleOut("K0"), hasErr: true})
+	sp(&ctor{name: "InLast_S4", inStyle: true, markerLast: true, deps: []dep{mkDep("K3", "FGroup"), mkDep("K0", "FKeyed")}, outs: simpleOut("S4")})
+	sp(&ctor{name: "OutLast_K2K3", resultObj: true, markerLast: true, deps: P("K0"), outs: []out{{typ: "K2"}, {typ: "K3", key: "k"}}})
+	sp(&ctor{name: "OutLast_S5S6", resultObj: true, markerLast: true, outs: []out{{typ: "S5"}, {typ: "S6", group: "g"}}})
+	// closures of one function literal (made by one factory): every constructor of a group has
+	// the same code pointer and the same type and differs only in what it captured
+	for _, t := range []string{"K0", "K1", "S0", "S4"} {
+		for _, sfx := range []string{"a", "b", "c"} {
+			sp(&ctor{name: "Clo_" + t + "_" + sfx, closure: "leaf_" + t, outs: simpleOut(t), hasErr: sfx != "c" && false})
+		}
+	}
+	for _, sfx := range []string{"a", "b"} {
+		sp(&ctor{name: "CloDep_K2_" + sfx, closure: "dep_K2", deps: P("K0", "K1"), outs: simpleOut("K2"), hasErr: true})
+		sp(&ctor{name: "CloIn_K3_" + sfx, closure: "in_K3", inStyle: true, deps: []dep{mkDep("K0", "FPlain"), mkDep("K1", "FOpt")}, outs: simpleOut("K3")})
+	}
 	writeTypes()
 	writeCtors()
 }
@@ -451,6 +469,8 @@ func (x *Dec2) Shutdown() error { rt.OnDecoy(&x.Inst, "Shutdown()"); return nil 
 	emit("pool/gen_types.go", &b)
 }
 
+var closureDone = map[string]bool{}
+
 func writeCtors() {
 	var b bytes.Buffer
 	b.WriteString("// Code generated by poolgen. DO NOT EDIT.\n\npackage pool\n\nimport (\n\t\"context\"\n\n\t\"github.com/junioryono/godi/v4\"\n\t\"github.com/junioryono/godi/v4/verifh/rt\"\n)\n\nvar _ context.Context\nvar _ godi.In\n\n")
@@ -458,7 +478,10 @@ func writeCtors() {
 		// parameter list
 		var params, argExprs []string
 		if c.inStyle {
-			fmt.Fprintf(&b, "type in_%s struct {\n\tgodi.In\n", c.name)
+			fmt.Fprintf(&b, "type in_%s struct {\n", c.name)
+			if !c.markerLast {
+				b.WriteString("\tgodi.In\n")
+			}
 			// exported fields of embedded structs are promoted into the In struct but are not
 			// parameters: an unexported embedded struct and an embedded struct tagged inject:"-"
 			var embPriv, embIgn []dep
@@ -480,6 +503,9 @@ func writeCtors() {
 			}
 			if len(embIgn) > 0 {
 				fmt.Fprintf(&b, "\tEmb_%s `inject:\"-\"`\n", c.name)
+			}
+			if c.markerLast {
+				b.WriteString("\tgodi.In\n")
 			}
 			b.WriteString("}\n\n")
 			if len(embPriv) > 0 {
@@ -506,7 +532,10 @@ func writeCtors() {
 		// result list
 		var results []string
 		if c.resultObj {
-			fmt.Fprintf(&b, "type out_%s struct {\n\tgodi.Out\n", c.name)
+			fmt.Fprintf(&b, "type out_%s struct {\n", c.name)
+			if !c.markerLast {
+				b.WriteString("\tgodi.Out\n")
+			}
 			for _, o := range c.outs {
 				tag := ""
 				var parts []string
@@ -523,6 +552,9 @@ func writeCtors() {
 			}
 			for _, o := range c.ignoredOuts {
 				fmt.Fprintf(&b, "\t%s %s `inject:\"-\"`\n", o.field, goType(o.typ))
+			}
+			if c.markerLast {
+				b.WriteString("\tgodi.Out\n")
 			}
 			b.WriteString("}\n\n")
 			results = []string{"out_" + c.name}
@@ -542,7 +574,24 @@ func writeCtors() {
 		default:
 			resSig = " (" + strings.Join(results, ", ") + ")"
 		}
-		fmt.Fprintf(&b, "func %s(%s)%s {\n", c.name, strings.Join(params, ", "), resSig)
+		idExpr := fmt.Sprintf("%d", id)
+		emitBody := true
+		if c.closure != "" {
+			// closures of ONE function literal: same code pointer, same type, different captured id
+			idExpr = "id"
+			if closureDone[c.closure] {
+				fmt.Fprintf(&b, "var %s = mk_%s(%d)\n\n", c.name, c.closure, id)
+				emitBody = false
+			} else {
+				closureDone[c.closure] = true
+				fmt.Fprintf(&b, "var %s = mk_%s(%d)\n\n//go:noinline\nfunc mk_%s(id int) func(%s)%s {\n\treturn func(%s)%s {\n", c.name, c.closure, id, c.closure, strings.Join(params, ", "), resSig, strings.Join(params, ", "), resSig)
+			}
+		} else {
+			fmt.Fprintf(&b, "func %s(%s)%s {\n", c.name, strings.Join(params, ", "), resSig)
+		}
+		if !emitBody {
+			continue
+		}
 		var outPtrs, outTypes []string
 		for i, o := range c.outs {
 			fmt.Fprintf(&b, "\to%d := &%s{}\n", i, o.impl)
@@ -554,7 +603,7 @@ func writeCtors() {
 			outPtrs = append(outPtrs, fmt.Sprintf("&ig%d.Inst", i))
 			outTypes = append(outTypes, fmt.Sprintf("%q", o.impl))
 		}
-		call := fmt.Sprintf("rt.Construct(%d, []*rt.Inst{%s}, []string{%s}", id, strings.Join(outPtrs, ", "), strings.Join(outTypes, ", "))
+		call := fmt.Sprintf("rt.Construct(%s, []*rt.Inst{%s}, []string{%s}", idExpr, strings.Join(outPtrs, ", "), strings.Join(outTypes, ", "))
 		for _, a := range argExprs {
 			call += ", " + a
 		}
@@ -604,6 +653,9 @@ func writeCtors() {
 			fmt.Fprintf(&b, "\tswitch act, err := %s; act {\n\tcase rt.RetErr:\n\t\treturn %s\n\tcase rt.RetNil:\n\t\treturn %s\n\t}\n\treturn %s\n", call, zero("err"), zero("nil"), okRet())
 		default:
 			fmt.Fprintf(&b, "\tif act, _ := %s; act == rt.RetNil {\n\t\treturn %s\n\t}\n\treturn %s\n", call, zero(""), okRet())
+		}
+		if c.closure != "" {
+			b.WriteString("\t}\n")
 		}
 		b.WriteString("}\n\n")
 	}
